@@ -553,9 +553,31 @@ pub enum StdoutMode
 }
 
 thread_local! {
+    /// How the runs started by this thread spell the configuration path when the caller asks for the
+    /// plain "Breadlog.yaml" in the working directory: 0 as given (bare file name), 1 "./Breadlog.yaml",
+    /// 2 the absolute path.
+    pub static CONFIG_FORM: std::cell::Cell<u8> = const { std::cell::Cell::new(0) };
     /// Give the subject a terminal (the slave side of a fresh pseudo-terminal) as standard input
     /// instead of /dev/null, for the runs started by this thread.
     pub static STDIN_TTY: std::cell::Cell<bool> = const { std::cell::Cell::new(false) };
+}
+
+/// Sets CONFIG_FORM for the current thread until dropped.
+pub struct ConfigFormGuard;
+impl ConfigFormGuard
+{
+    pub fn new(form: u8) -> ConfigFormGuard
+    {
+        CONFIG_FORM.with(|c| c.set(form % 3));
+        ConfigFormGuard
+    }
+}
+impl Drop for ConfigFormGuard
+{
+    fn drop(&mut self)
+    {
+        CONFIG_FORM.with(|c| c.set(0));
+    }
 }
 
 /// (master, slave) of a new pseudo-terminal, both close-on-exec, the slave opened without becoming a controlling terminal.
@@ -598,7 +620,20 @@ pub fn run_breadlog_with(spec: &RunSpec, stdout_mode: StdoutMode) -> RunResult
     start_watchdog();
     PROCESS_RUNS.fetch_add(1, Ordering::Relaxed);
     let mut cmd = Command::new(breadlog_bin());
-    cmd.arg("-c").arg(&spec.config_arg);
+    let config_arg: std::ffi::OsString = if spec.config_arg == "Breadlog.yaml"
+    {
+        match CONFIG_FORM.with(|c| c.get())
+        {
+            1 => "./Breadlog.yaml".into(),
+            2 => spec.cwd.join("Breadlog.yaml").into_os_string(),
+            _ => spec.config_arg.clone().into(),
+        }
+    }
+    else
+    {
+        spec.config_arg.clone().into()
+    };
+    cmd.arg("-c").arg(&config_arg);
     if spec.check
     {
         cmd.arg("--check");
